@@ -155,6 +155,16 @@ pub fn distinct_rats(rng: &mut Rng, tier: Tier, n: usize) -> Vec<Rat> {
 
 /// `n` rationals: mostly the non-trivial shape, sometimes with zeros / repeats mixed in
 pub fn rats(rng: &mut Rng, tier: Tier, n: usize) -> (Vec<Rat>, bool) {
+    // one draw in twelve: nothing but "round" values (-2 .. 2, halves), half of the time the same
+    // value in every component -- the corners of the clip cube, the space diagonal, (1,1,1,1) ...
+    if rng.chance(1, 12) {
+        const ROUND: [(i64, i64); 8] = [(-1, 1), (1, 1), (0, 1), (2, 1), (-2, 1), (1, 2), (-1, 2), (3, 1)];
+        let same = rng.bool();
+        let first = rng.pick(&ROUND);
+        let v: Vec<Rat> = (0..n).map(|_| if same { first } else { rng.pick(&ROUND) }).map(|(a, b)| Rat::new(a, b)).collect();
+        let nt = is_nontrivial(&v);
+        return (v, nt);
+    }
     if rng.chance(4, 5) {
         (distinct_rats(rng, tier, n), true)
     } else {
@@ -287,4 +297,120 @@ pub fn angle(rng: &mut Rng) -> f64 {
 pub fn ladder(rng: &mut Rng, t: f64, side: i32) -> f64 {
     let k = rng.range(1, 9) as i32;
     t * (1.0 + side as f64 * 10f64.powi(-k))
+}
+
+/// A matrix of the kind real programs build with the crate's own constructors, as n*n rationals
+/// in column-major order: identity, (non-)uniform scale, translation, scale + translation
+/// ("viewport"), an exact rational rotation, rotation + translation, a projection-shaped matrix
+/// (perspective / frustum / ortho sparsity pattern), a diagonal with one zero.  Dense random
+/// matrices essentially never have these exact 0 / 1 patterns, and code that special-cases a
+/// pattern is only reached through them.  Returns (entries, kind).
+pub fn structured_matrix(rng: &mut Rng, tier: Tier, n: usize) -> (Vec<Rat>, u16) {
+    let z = Rat::int(0);
+    let o = Rat::int(1);
+    let mut m = vec![z; n * n];
+    let at = |c: usize, r: usize| c * n + r;
+    for i in 0..n {
+        m[at(i, i)] = o;
+    }
+    let kind = rng.below(9) as u16;
+    let nz = |rng: &mut Rng| nz_rat(rng, tier);
+    match kind {
+        0 => {} // identity
+        1 => {
+            // uniform or non-uniform scale of the leading (n-1) block, or of everything
+            let s = nz(rng);
+            let uniform = rng.bool();
+            let upto = if rng.bool() { n } else { n - 1 };
+            for i in 0..upto {
+                m[at(i, i)] = if uniform { s } else { nz(rng) };
+            }
+        }
+        2 => {
+            // translation
+            for r in 0..n - 1 {
+                m[at(n - 1, r)] = nz(rng);
+            }
+        }
+        3 => {
+            // non-uniform scale + translation (viewport / pixel mapping)
+            for i in 0..n - 1 {
+                m[at(i, i)] = nz(rng);
+                m[at(n - 1, i)] = nz(rng);
+            }
+        }
+        4 | 5 => {
+            // exact rational rotation in the leading 2x2 (n = 2, 3) or 3x3 (n = 4) block, kind 5 with translation
+            if n == 4 {
+                let q = unit_quat(rng, Tier::Quick);
+                let (w, x, y, zq) = (q[0], q[1], q[2], q[3]);
+                let mul = |a: Rat, b: Rat| Rat::new(a.n * b.n, a.d * b.d);
+                let add = |a: Rat, b: Rat| Rat::new(a.n * b.d + b.n * a.d, a.d * b.d);
+                let sub = |a: Rat, b: Rat| Rat::new(a.n * b.d - b.n * a.d, a.d * b.d);
+                let two = |a: Rat| Rat::new(2 * a.n, a.d);
+                let one = Rat::int(1);
+                // columns of the rotation matrix of the unit quaternion (w, x, y, z)
+                m[at(0, 0)] = sub(one, two(add(mul(y, y), mul(zq, zq))));
+                m[at(0, 1)] = two(add(mul(x, y), mul(w, zq)));
+                m[at(0, 2)] = two(sub(mul(x, zq), mul(w, y)));
+                m[at(1, 0)] = two(sub(mul(x, y), mul(w, zq)));
+                m[at(1, 1)] = sub(one, two(add(mul(x, x), mul(zq, zq))));
+                m[at(1, 2)] = two(add(mul(y, zq), mul(w, x)));
+                m[at(2, 0)] = two(add(mul(x, zq), mul(w, y)));
+                m[at(2, 1)] = two(sub(mul(y, zq), mul(w, x)));
+                m[at(2, 2)] = sub(one, two(add(mul(x, x), mul(y, y))));
+            } else {
+                let [c, s_] = unit_vec2(rng, Tier::Quick);
+                m[at(0, 0)] = c;
+                m[at(0, 1)] = s_;
+                m[at(1, 0)] = Rat::new(-s_.n, s_.d);
+                m[at(1, 1)] = c;
+            }
+            if kind == 5 {
+                for r in 0..n - 1 {
+                    m[at(n - 1, r)] = nz(rng);
+                }
+            }
+        }
+        6 => {
+            // projection-shaped: perspective / frustum pattern for n = 4, its 3x3 and 2x2 analogues below
+            if n == 4 {
+                m = vec![z; 16];
+                m[at(0, 0)] = nz(rng);
+                m[at(1, 1)] = nz(rng);
+                m[at(2, 2)] = nz(rng);
+                m[at(2, 3)] = Rat::int(-1);
+                m[at(3, 2)] = nz(rng);
+                if rng.bool() {
+                    // frustum: off-centre window
+                    m[at(2, 0)] = nz(rng);
+                    m[at(2, 1)] = nz(rng);
+                }
+            } else {
+                m = vec![z; n * n];
+                for i in 0..n - 1 {
+                    m[at(i, i)] = nz(rng);
+                }
+                m[at(n - 1, n - 2)] = nz(rng);
+                m[at(n - 2, n - 1)] = Rat::int(-1);
+            }
+        }
+        7 => {
+            // ortho-shaped: diagonal scale, translation, w = 1
+            for i in 0..n - 1 {
+                m[at(i, i)] = nz(rng);
+                m[at(n - 1, i)] = small_rat(rng, tier);
+            }
+        }
+        _ => {
+            // singular structured: a scale with one zero factor, plus translation
+            for i in 0..n - 1 {
+                m[at(i, i)] = nz(rng);
+                m[at(n - 1, i)] = nz(rng);
+            }
+            let k = rng.below(n as u64 - 1) as usize;
+            m[at(k, k)] = z;
+        }
+    }
+    (m, kind)
 }
